@@ -402,3 +402,81 @@ Proof.
 Qed.
 
 End ChunkFrames.
+
+(* ------------------------------------------------------------------------- *)
+(* the provided Iterator methods (default definitions = repeated next)        *)
+
+Section IteratorMethods.
+Context {A : Type}.
+
+(* nth(k) = the k-th chunk still to come, None when fewer remain *)
+Lemma nth_spec k : forall w : windower A, 1 <= bin w -> 1 <= hop w ->
+  exists w', w_nth k w = Ok (nth_error (chunks_spec (frames w) (bin w) (hop w)) k, w') /\
+             bin w' = bin w /\ hop w' = hop w.
+Proof.
+  induction k as [|k IH]; intros w Hb Hh; cbn [w_nth];
+    destruct (Nat.le_gt_cases (bin w) (length (frames w))) as [Hle|Hgt].
+  - rewrite next_some by assumption. cbn [bind].
+    exists (mkW (bin w) (hop w) (rest_of (frames w) (hop w))). split; [|split; reflexivity].
+    rewrite chunks_spec_step by assumption. reflexivity.
+  - rewrite next_none by assumption. cbn [bind]. exists w. split; [|split; reflexivity].
+    unfold chunks_spec. rewrite chunk_count_zero by assumption. reflexivity.
+  - rewrite next_some by assumption. cbn [bind].
+    set (w1 := mkW (bin w) (hop w) (rest_of (frames w) (hop w))).
+    destruct (IH w1 Hb Hh) as (w' & Hn & Hb' & Hh'). exists w'. split; [|split; assumption].
+    rewrite Hn. cbn [bin hop frames w1]. rewrite (chunks_spec_step (frames w)) by assumption. reflexivity.
+  - rewrite next_none by assumption. cbn [bind]. exists w. split; [|split; reflexivity].
+    unfold chunks_spec. rewrite chunk_count_zero by assumption. reflexivity.
+Qed.
+
+Lemma nth_error_chunks_spec (fr : list A) b h k :
+  nth_error (chunks_spec fr b h) k =
+  if k <? chunk_count (length fr) b h then Some (slice fr (k * h) b) else None.
+Proof.
+  unfold chunks_spec. rewrite nth_error_map_in.
+  destruct (Nat.ltb_spec k (chunk_count (length fr) b h)) as [Hlt|Hge].
+  - rewrite nth_error_nth' with (d := 0) by (rewrite seq_length; assumption).
+    rewrite seq_nth by assumption. reflexivity.
+  - replace (nth_error (seq 0 (chunk_count (length fr) b h)) k) with (@None nat); [reflexivity|].
+    symmetry. apply nth_error_None. rewrite seq_length. assumption.
+Qed.
+
+Theorem windower_nth (fr : list A) b h k : 1 <= b -> 1 <= h ->
+  exists w', w_nth k (w_new fr b h) =
+    Ok (if k <? (if b <=? length fr then (length fr - b) / h + 1 else 0)
+        then Some (firstn b (skipn (k * h) fr)) else None, w').
+Proof.
+  intros Hb Hh. destruct (nth_spec k (w_new fr b h) Hb Hh) as (w' & Hn & _).
+  exists w'. rewrite Hn. cbn [w_new bin hop frames]. rewrite nth_error_chunks_spec. reflexivity.
+Qed.
+
+Lemma last_map_seq {B} (f : nat -> B) n d : last (map f (seq 0 (S n))) d = f n.
+Proof.
+  rewrite seq_S, map_app. cbn [map]. apply last_last.
+Qed.
+
+(* last() = the chunk of the final Some: chunk number count-1, which starts at ((L-b)/h)*h
+   (not at L-b unless h divides L-b); count() = the number of chunks *)
+Theorem windower_last (fr : list A) b h : 1 <= b -> 1 <= h ->
+  exists w', w_last (S (length fr)) (w_new fr b h) =
+    Ok (if b <=? length fr then Some (firstn b (skipn ((length fr - b) / h * h) fr)) else None, w') /\
+    w_next w' = Ok None.
+Proof.
+  intros Hb Hh. unfold w_last.
+  destruct (drain_spec (S (length fr)) (w_new fr b h)) as (w' & Hd & Hn & _); cbn [w_new bin hop frames]; try assumption.
+  { pose proof (chunk_count_le (length fr) b h Hb Hh). lia. }
+  exists w'. split; [|assumption]. rewrite Hd. cbn [bind fst snd w_new bin hop frames]. f_equal. f_equal.
+  unfold chunks_spec, chunk_count. destruct (Nat.leb_spec b (length fr)) as [Hle|Hgt]; [|reflexivity].
+  rewrite Nat.add_1_r, map_map. apply (last_map_seq (fun k => Some (slice fr (k * h) b))).
+Qed.
+
+Theorem windower_count_method (fr : list A) b h : 1 <= b -> 1 <= h ->
+  exists w', w_count (S (length fr)) (w_new fr b h) =
+    Ok (if b <=? length fr then (length fr - b) / h + 1 else 0, w') /\ w_next w' = Ok None.
+Proof.
+  intros Hb Hh. unfold w_count.
+  destruct (windower_count fr b h Hb Hh) as (chunks & w' & Hd & Hn & Hl).
+  exists w'. split; [|assumption]. rewrite Hd. cbn [bind fst snd]. rewrite Hl. reflexivity.
+Qed.
+
+End IteratorMethods.
